@@ -7,6 +7,7 @@ from common import rng_for, run_driver, chash, quiet
 from compare import first_diff
 import framework
 import vclasses
+import corr_play
 
 STR = ["", "a", "key", "old map"]
 KEYS = ["k", "m", "name", "x1"]
@@ -50,6 +51,10 @@ def _gen_fresh(r, depth, max_depth, pool):
     if k < 0.70:
         return vclasses.Rune(r.choice(STR), r.randint(0, 9))
     if k < 0.725:
+        if r.random() < 0.5:
+            rune = lambda: vclasses.Rune(r.choice(STR), r.randint(0, 9))  # noqa
+            return vclasses.Kit(r.choice(STR), rune() if r.random() < 0.7 else gen_value(r, depth + 1, max_depth),
+                                [rune() for _ in range(r.randint(0, 2))], {kk: rune() for kk in r.sample(KEYS, r.randint(0, 2))})
         return vclasses.Bonus(r.randint(0, 9), r.choice(STR))
     if k < 0.77:
         return vclasses.Card(r.choice(STR), r.randint(0, 21))
@@ -72,6 +77,8 @@ def _gen_fresh(r, depth, max_depth, pool):
         return inv
     from bardic.stdlib.relationship import Relationship
     rel = Relationship("Alex", r.randint(0, 100), r.randint(0, 100), r.randint(-10, 10))
+    for t_ in r.sample(["past", "family", "work"], r.randint(0, 2)):
+        rel.discuss_topic(t_)
     return rel
 
 
@@ -79,7 +86,7 @@ def registry():
     from bardic.stdlib.economy import Wallet, Shop
     from bardic.stdlib.inventory import Inventory
     from bardic.stdlib.relationship import Relationship
-    reg = {"Shop": Shop, "Card": vclasses.Card, "Deck": vclasses.Deck, "Purse": vclasses.Purse, "Rune": vclasses.Rune, "Bonus": vclasses.Bonus, "Wallet": Wallet,
+    reg = {"Shop": Shop, "Card": vclasses.Card, "Deck": vclasses.Deck, "Purse": vclasses.Purse, "Rune": vclasses.Rune, "Kit": vclasses.Kit, "Bonus": vclasses.Bonus, "Wallet": Wallet,
            "Inventory": Inventory, "Relationship": Relationship}
     if vclasses.Backpack is not None:
         reg["Backpack"] = vclasses.Backpack
@@ -139,6 +146,8 @@ def methods_work(v):
         return v.label() == f"{v.glyph}^{v.power}"
     if isinstance(v, vclasses.Bonus):
         return v(10) == 10 + v.amount
+    if isinstance(v, vclasses.Kit):
+        return v.size() == 1 + len(v.spare) and methods_work(v.main) and methods_work(v.spare) and methods_work(v.notes)
     if isinstance(v, vclasses.Deck):
         return v.count() == len(v.cards) and methods_work(v.cards) and methods_work(v.notes)
     if isinstance(v, vclasses.Purse):
@@ -163,8 +172,9 @@ def observe(v):
     read-only properties, container structure (tuples read as lists)"""
     if isinstance(v, (list, tuple)):
         return [observe(x) for x in v]
-    if isinstance(v, set):
-        return sorted(observe(x) for x in v)
+    if isinstance(v, (set, frozenset)):
+        # a set is not a list (`.add`, `in`, no order): told apart from one
+        return {"__set__": sorted((observe(x) for x in v), key=repr)}
     if isinstance(v, dict):
         # a dict is seen in its iteration order (`@for k in d`, `list(d)[0]`): pairs, not a mapping
         return {"__dict__": [[str(k), observe(x)] for k, x in v.items()]}
@@ -274,6 +284,8 @@ def gen_stdlib_value(r, depth=0):
             rel.mood = r.choice(["wary", "warm"])          # an attribute the story itself put on the object
         if r.random() < 0.3:
             rel.gifts = [r.randint(0, 5)]
+        for t_ in r.sample(["past", "family", "work"], r.randint(0, 2)):
+            rel.discuss_topic(t_)
         return rel
     if k < 0.9:
         w = Wallet(r.randint(0, 90))
@@ -308,6 +320,55 @@ def stdlib_observation_family(rep, n):
                                    "value": json.dumps(before)[:600]})
             fails += 1
     rep.coverage.setdefault("families", {})["stdlib-observation"] = {"cases": n, "failing": fails}
+    rep.coverage["evaluations"] = rep.coverage.get("evaluations", 0) + n
+
+
+def same_name_probe(rep, pid="C06"):
+    """two classes with the SAME name from different modules, met by engines of one process one after the other
+    (aliased registration / module import, the two ways a class is found when it is not registered under its own name):
+    each save is rebuilt with the class its own story imported, whatever other stories were loaded before"""
+    import sys
+    import types
+    from bardic.runtime.engine import BardEngine
+    fam = pid.lower() + "-same-name"
+    mods = {}
+    for mn, body in (("verif_story_one", "class Token:\n    def __init__(self, n):\n        self.n = n\n    def show(self):\n        return 'one:' + str(self.n)\n"),
+                     ("verif_story_two", "class Token:\n    def __init__(self, n):\n        self.n = n\n    def show(self):\n        return 'two:' + str(self.n * 2)\n")):
+        m = types.ModuleType(mn)
+        exec(body, m.__dict__)
+        m.Token.__module__ = mn
+        sys.modules[mn] = m
+        mods[mn] = m
+    n = 0
+    try:
+        for order in (("verif_story_one", "verif_story_two"), ("verif_story_two", "verif_story_one")):
+            for style in ("alias", "module", "alias"):
+                for mn in order:
+                    imp = f"from {mn} import Token as Tk" if style == "alias" else f"import {mn} as lib"
+                    mk = "Tk(3)" if style == "alias" else "lib.Token(3)"
+                    src = f"{imp}\n:: Start\n~ t = {mk}\n~ many = [{mk}, {{'k': {mk}}}]\nhi\n+ [go] -> Mid\n\n:: Mid\nmid\n+ [go] -> Next\n\n:: Next\n{{t.show()}} {{many[0].show()}} {{many[1]['k'].show()}}\n"
+                    want = mods[mn].Token(3).show()
+                    n += 1
+                    try:
+                        with quiet():
+                            story = corr_play.compile_source(src)
+                            e = BardEngine(copy.deepcopy(story))
+                            e.choose(0)         # (the save is taken where loading does not run the statements that made the objects)
+                            doc = json.loads(json.dumps(e.save_state()))
+                            e2 = BardEngine(copy.deepcopy(story))
+                            e2.load_state(doc)
+                            out = e2.choose(0).content
+                    except Exception as ex:  # noqa
+                        rep.violations.append({"cls": None, "family": fam, "what": f"save/load with `{imp}` raised {type(ex).__name__}: {str(ex)[:160]}", "source": src})
+                        continue
+                    if out.strip() != f"{want} {want} {want}":
+                        rep.violations.append({"cls": None, "family": fam, "source": src,
+                                               "what": f"after load the objects of the class bound by `{imp}` show {out.strip()!r}, before the save {want!r} "
+                                                       f"(an engine for another story with a class of the same name was loaded earlier in this process: order {order}, style {style})"})
+    finally:
+        for mn in mods:
+            sys.modules.pop(mn, None)
+    rep.coverage.setdefault("families", {})[fam] = {"cases": n}
     rep.coverage["evaluations"] = rep.coverage.get("evaluations", 0) + n
 
 
